@@ -219,6 +219,33 @@ pub fn plan_variants(a: &[u64]) -> Vec<u64> {
     vec![u64::from(same)]
 }
 
+/// [memory, mtu, drop_every, data...] -> EncoderBuilder with the given budget and packet size: the derived
+/// configuration (F,T,Z,N,Al), then 1 if a Decoder built from it returns exactly the data when every
+/// `drop_every`-th source packet is replaced by repair packets (0 = all source packets), else 0
+pub fn builder_roundtrip(a: &[u64]) -> Vec<u64> {
+    let data = bytes(&a[3..]);
+    let mut b = raptorq::EncoderBuilder::new();
+    b.set_decoder_memory_requirement(a[0]);
+    b.set_max_packet_size(a[1] as u16);
+    let enc = b.build(&data);
+    let c = enc.get_config();
+    let mut out = vec![c.transfer_length(), c.symbol_size() as u64, c.source_blocks() as u64, c.sub_blocks() as u64, c.symbol_alignment() as u64];
+    let mut dec = Decoder::new(c);
+    let mut res = None;
+    let every = a[2] as usize;
+    let kmax = enc.get_block_encoders().iter().map(|b| b.source_packets().len()).max().unwrap_or(0) as u32;
+    for (i, p) in enc.get_encoded_packets(if every == 0 { 0 } else { kmax / 2 + 4 }).into_iter().enumerate() {
+        let esi = p.payload_id().encoding_symbol_id() as usize;
+        let k = enc.get_block_encoders()[p.payload_id().source_block_number() as usize].source_packets().len();
+        if every != 0 && esi < k && esi % every == 0 && i > 0 {
+            continue;
+        }
+        res = dec.decode(p);
+    }
+    out.push(u64::from(res.as_deref() == Some(&data[..])));
+    out
+}
+
 /// [T, variant, thr, nrep, data(K*T)...] -> source + repair packets of a block encoder built by
 /// variant 0: SourceBlockEncoder::new (plan cache, warm or cold); 1: with_encoding_plan(generate(K));
 /// 2: solved directly with sparse threshold thr (no plan); 3: new() after clearing the plan cache
